@@ -3,14 +3,15 @@
 (*                                                                                                        *)
 (* Every goroutine of the code is a process with its own program counter / pending counter:                *)
 (*   subscriber callback       Deliver (atomic: it only spawns goroutines, stops a timer or resets a count) *)
-(*   accept-timer goroutine    apc  : none | wait | close | done       (select on ctx.Done / timer.C)      *)
+(*   accept-timer goroutine    apc  : none | wait | close | doclose | done  (select on ctx.Done / timer.C)  *)
 (*   `go watchForResponderComplete`   cgo (spawned, timer not yet created), cw (waiting, by deadline),      *)
 (*                             cclose (took the timer branch, about to call closeChannelAndShutdown),      *)
 (*                             cdoclose (won Shutdown(), about to call CloseDataTransferChannelWithError)  *)
 (*   `go restartChannelDebounced`     dbgo (spawned, debouncer not yet called) ; dbArmed/dbDl = AfterFunc   *)
 (*   AfterFunc -> restartChannel()    rcalls (entered, restartLk not yet taken)                            *)
 (*   the restartChannel loop   lp[s].pc : idle | count | connect | connWait | restart | rsWait | backoff |  *)
-(*                             loop | close | dead   with restartLk state inFlight (restartedAt # 0),        *)
+(*                             loop | close | doclose | dead   with restartLk state inFlight (restartedAt  *)
+(*                             # 0),                                                                       *)
 (*                             queued (restartQueued), consec (consecutiveRestarts)                        *)
 (*   `go mc.Shutdown()`        shgo : ITS OWN process (window between "seen terminal" and "shut")           *)
 (*   `go mc.onShutdown(chid)`  delgo (delete from Monitor.channels)                                        *)
